@@ -20,6 +20,16 @@ class ToolLimit(Exception):
 
 
 class LoopCtx:
+    mods_of = {}
+
+    @property
+    def mods(self):
+        return self._mods if hasattr(self, '_mods') else LoopCtx.mods_of.get(self.ordinal, set())
+
+    @mods.setter
+    def mods(self, v):
+        self._mods = v
+
     def __init__(self, ordinal, entry, seq):
         self.ordinal = ordinal
         self.entry = entry      # State at loop entry (before the first iteration)
@@ -564,6 +574,11 @@ class Executor:
             raise ToolLimit('loop #%d of %s has no invariant' % (ordinal, fx.fi.qualname))
         lp = LoopCtx(ordinal, st, seq)
         cx = self.cx
+        LoopCtx.mods_of = getattr(LoopCtx, 'mods_of', {})
+        mods = assigned_names(stmt.body) | assigned_names([ast.Expr(value=stmt.target)]) | \
+            {n.id for n in ast.walk(stmt.target) if isinstance(n, ast.Name)}
+        LoopCtx.mods_of[ordinal] = mods
+        lp.mods = mods
         # --- initialisation (ghost functions get their initial definition first)
         lp.k, lp.st = z3.IntVal(0), st
         # ghost state variables: initial values (ghost code, affects no program variable)
@@ -573,10 +588,10 @@ class Executor:
             st.ghost[gname] = gc
         for name, f in inv.invariant(cx, lp):
             self.oblige(st, 'inv-init#%d.%s' % (ordinal, name), f, kind='inv')
-        mods = assigned_names(stmt.body) | assigned_names([ast.Expr(value=stmt.target)]) | \
-            {n.id for n in ast.walk(stmt.target) if isinstance(n, ast.Name)}
         writes_heap = inv.writes_heap
         out = []
+        LoopCtx.mods_of[ordinal] = mods
+        lp.mods = mods
 
         def havoc(s0, tag):
             s = s0.fork()
@@ -589,7 +604,11 @@ class Executor:
                 s.writes.append(('loop', ordinal, s0.heap, None))
             for n in mods:
                 if n in s.locals:
-                    s.locals[n] = self.havoc_value(s.locals[n], n, getattr(inv, 'havoc_types', {}).get(n))
+                    ht = getattr(inv, 'havoc_types', {})
+                    kind = ht.get(n)
+                    if kind is None and isinstance(s.locals[n], SList) and '*list' in ht:
+                        kind = ht['*list']
+                    s.locals[n] = self.havoc_value(s.locals[n], n, kind)
             s.warns = []
             s.out = []
             s.err = []
